@@ -240,6 +240,39 @@ def find_stmt_shape(ctx):
                     f'because self.stmts holds records, never Block nodes')
 
 
+def record_synthesis(ctx):
+    repo = ctx.repo
+    rule = 'C11.block-start-end-records-cover-the-block'
+    ctx.rule(rule, 'DebugInfo.finalize synthesises the start/end statement '
+             'records of a block so that together they cover the block\'s '
+             'range: [start, first child) + (last child, end] or, for an '
+             'empty block, [start, marker) + [marker, end) with the marker '
+             'anywhere in start <= marker < end')
+    from .. import pat
+    f = repo.func('qvm.debug_info', 'DebugInfo.finalize')
+    checks = {
+        'with-children-start': pat.has(
+            'add_node_record(_B.start_stmt, _S, _C.start_offset)', f.node),
+        'with-children-end': pat.has(
+            'add_node_record(_B.end_stmt, _C.end_offset, _E)', f.node),
+        'empty-marker-range': pat.has(
+            'for _A in self.empty_blocks:\n    if _S <= _A < _E:\n'
+            '        add_node_record(_B.start_stmt, _S, _A)\n'
+            '        add_node_record(_B.end_stmt, _A, _E)', f.node),
+        'children-inside': pat.has(
+            'if _BS <= _X.start_offset and _BE >= _X.end_offset:\n    ...',
+            f.node),
+    }
+    for k, ok in checks.items():
+        ctx.instance(rule, f'{f.file}:DebugInfo.finalize:{k}')
+        if not ok:
+            ctx.finding(rule, f'{f.file}:DebugInfo.finalize:{k}',
+                        f'DebugInfo.finalize: the "{k}" step no longer has '
+                        f'the shape that makes block start/end records cover '
+                        f'the whole block (instructions would be attributed '
+                        f'to no statement)', f.file, f.line)
+
+
 def run(ctx):
     ctx.clauses = [
         'markers bracket every generator call with matching guards',
@@ -256,6 +289,7 @@ def run(ctx):
     optimizer_window(ctx, 'C11')
     source_positions(ctx)
     find_stmt_shape(ctx)
+    record_synthesis(ctx)
     if ctx.tier == 'thorough' or True:
         try:
             from .. import gensim
